@@ -127,6 +127,25 @@ def check(run):
                       "reading 100 B - 64 KiB at a time with pauses 0 - 2 ms; the first six cases reproduce the repaired truncation (big burst, immediate "
                       "exit, slow reader); timing is real: a loss seen is real, no loss seen proves nothing more than the run",
                       key_fn=lambda c: json.dumps(c, sort_keys=True), shard=6)
+    # commands which cannot be started at all: the stream must end all the same and the failure must be reported
+    nx = os.path.join(run.rundir, "not-executable"); open(nx, "w").write("#!/bin/sh\necho hi\n"); os.chmod(nx, 0o600)
+    bi = os.path.join(run.rundir, "bad-interpreter"); open(bi, "w").write("#!/nonexistent/interpreter\necho hi\n"); os.chmod(bi, 0o700)
+    ust = [{"i": k, "argv": av, "stdin": "", "stdin_mode": sm, "read": 4096, "pause_us": 0, "limit_ms": 2500}
+           for k, (av, sm) in enumerate([(["/nonexistent/bin/sh"], "close"), ([nx], "open"), ([bi], "close"), (["no-such-command-on-the-path"], "open"), ([run.rundir], "close")])]
+    urs, uerr = vlib.run_drv(drv, "cmdshell", ust, timeout=120)
+    ubad = []
+    for c, r in zip(ust, urs or []):
+        ended = bool(r.get("eof")) or (bool(r.get("read_err")) and "no end of stream" not in r.get("read_err", ""))
+        if r.get("r") == "newerr":
+            continue                # refused before anything was started: nothing to end
+        if not ended or r.get("go") in ("nil", "stuck"):
+            ubad.append({"command": c["argv"], "output_stream_ended": ended, "Go_returned": r.get("go")})
+    for b in ubad[:1]:
+        run.violation("unstartable-command", "a command which cannot be started: the shell's output stream did not end, or Go did not report the failure",
+                      {"stream": "unstartable", "input": b["command"], "detail": ubad})
+    run.oblige("commands which cannot be started (no such file, not executable, bad interpreter, not on the PATH, a directory): the output stream ends and Go "
+               "returns the error (%d commands)" % len(ust), not uerr and len(urs or []) == len(ust) and not ubad, json.dumps(ubad)[:1500] + str(uerr))
+    run.stream("unstartable", len(ust), len(ust), "CmdShell around commands whose start fails", [ust[0]])
     run.assumptions += ["kernel pipes, os/exec and io.Pipe behave as their documentation says (EOF after the last writer closes and the buffer is drained; "
                         "Wait closes the parent's ends) - modelled in Model/CmdShell.v, exercised here",
                         "stdin bytes reaching the child unchanged is observed through the echoed line lengths only"]
